@@ -1,6 +1,7 @@
 pub mod c01;
 pub mod c02;
 pub mod c03;
+pub mod c04;
 pub mod c05;
 pub mod c06;
 pub mod c07;
@@ -22,6 +23,7 @@ pub fn build(id: &str, tier: &str, _seed: u64) -> Option<Box<dyn Space + Sync + 
         "C01" => Box::new(c01::C01::new(tier)),
         "C02" => Box::new(c02::C02::new(tier)),
         "C03" => Box::new(c03::C03::new(tier)),
+        "C04" => Box::new(c04::C04::new(tier)),
         "C05" => Box::new(c05::C05::new(tier)),
         "C06" => Box::new(c06::C06::new(tier)),
         "C07" => Box::new(c07::C07::new(tier)),
